@@ -84,7 +84,8 @@ def run(prop, tier):
             out.add_findings([{"property": "C10", "kind": "cli-abnormal-exit", "family": family, "input": src[:2000],
                                "detail": "zydeco check exits with %s: %s [%s]; the in-process pipeline aborted the harness on the same input" %
                                          (code, "stack overflow" if "overflowed its stack" in err else err[-160:], family)}])
-        out.coverage = {"states": states, "transitions": transitions, "traces_validated_against_impl": 0, "samples": [],
+        out.coverage = {"states": states, "transitions": transitions, "traces_validated_against_impl": len(culprits),
+                        "samples": [{"family": c[0], "input": c[1][:400], "exit": c[2]} for c in culprits[:3]],
                         "explanation": "the replay aborted on an input that overflows the stack of the code under test; the run stops at this finding"}
         out.assumptions = ["TLC 1.8.0"]
         return out.finish()
